@@ -11,7 +11,7 @@ use serde_json::{json, Value};
 use std::collections::{BTreeSet, HashMap};
 use std::io::Write;
 use surf_n_term::{
-    render::TerminalRenderer, view::ViewContext, Cell, Error, Face, FaceAttrs, FillRule, Glyph, Image, Path, Position,
+    render::TerminalRenderer, Cell, Error, Face, FaceAttrs, FillRule, Glyph, Image, Path, Position,
     Size, SurfaceMut, SurfaceOwned, Terminal, TerminalCaps, TerminalCommand, TerminalEvent, TerminalSize,
     TerminalWaker, RGBA,
 };
@@ -103,11 +103,12 @@ fn pools() -> Pools {
     let mk = |h: usize, w: usize, v: u8| {
         Image::from(SurfaceOwned::new_with(Size::new(h, w), |p| RGBA::new(v, (p.row * 7) as u8, (p.col * 5) as u8, 255)))
     };
-    let images = vec![mk(20, 10, 10), mk(40, 30, 20), mk(50, 15, 30)];
+    let images: Vec<Image> =
+        IMAGE_PIXELS.iter().enumerate().map(|(i, (ph, pw))| mk(*ph, *pw, 10 * (i as u8 + 1))).collect();
     let path: Path = "M1,1 L9,1 L9,9 L1,9 Z".parse().expect("path");
     let glyphs = vec![
-        Glyph::new(path.clone(), FillRule::NonZero, None, Size::new(1, 2), "g".to_string(), None),
-        Glyph::new(path, FillRule::EvenOdd, None, Size::new(1, 1), "h".to_string(), None),
+        Glyph::new(path.clone(), FillRule::NonZero, None, Size::new(GLYPH_CELLS[0].0, GLYPH_CELLS[0].1), "g".to_string(), None),
+        Glyph::new(path, FillRule::EvenOdd, None, Size::new(GLYPH_CELLS[1].0, GLYPH_CELLS[1].1), "h".to_string(), None),
     ];
     Pools { faces, images, glyphs }
 }
@@ -163,35 +164,40 @@ fn surf_coq(s: &Surf) -> String {
     }))
 }
 
-/// what the real code says about widths and sizes (the oracle tables of the case)
+/// The oracle tables of a case.  They are computed here, independently of the crate: display
+/// widths of the pool characters are the Unicode East-Asian-width facts, an image occupies ceil(pixels / pixels-per-cell)
+/// cells, a glyph image the glyph's declared size.
 struct Env {
-    ctx: ViewContext,
-    tsize: TerminalSize,
+    ppc: (usize, usize),
     isize: Vec<(usize, usize)>,
-    gsize: HashMap<(u32, u8), (usize, usize)>,
+}
+
+const IMAGE_PIXELS: [(usize, usize); 3] = [(20, 10), (40, 30), (50, 15)];
+const GLYPH_CELLS: [(usize, usize); 2] = [(1, 2), (1, 1)];
+
+fn char_width(ch: u32) -> usize {
+    if WIDE.contains(&ch) {
+        2
+    } else if ZERO.contains(&ch) {
+        0
+    } else {
+        1
+    }
 }
 
 impl Env {
-    fn new(p: &Pools, h: usize, w: usize) -> Env {
+    fn new(_p: &Pools, h: usize, w: usize) -> Env {
         let term = RecTerm::new(h.max(1), w.max(1));
-        let ctx = ViewContext::new(&term).expect("ctx");
-        let ppc = term.size.pixels_per_cell();
-        let isize = p.images.iter().map(|i| { let s = i.size_cells(ppc); (s.height, s.width) }).collect();
-        Env { ctx, tsize: term.size, isize, gsize: HashMap::new() }
+        let ppc = (term.size.pixels.height / term.size.cells.height, term.size.pixels.width / term.size.cells.width);
+        let isize = IMAGE_PIXELS.iter().map(|(ph, pw)| ((ph + ppc.0 - 1) / ppc.0, (pw + ppc.1 - 1) / ppc.1)).collect();
+        Env { ppc, isize }
     }
     fn width(&self, ch: u32) -> usize {
-        match char::from_u32(ch) {
-            Some(c) => Cell::new_char(Face::default(), c).size(&self.ctx).width,
-            None => 0,
-        }
+        char_width(ch)
     }
-    fn glyph_size(&mut self, p: &Pools, g: u32, f: u8) -> (usize, usize) {
-        let tsize = self.tsize;
-        *self.gsize.entry((g, f)).or_insert_with(|| {
-            let img = p.glyphs[g as usize % p.glyphs.len()].rasterize(p.faces[f as usize % p.faces.len()], tsize);
-            let s = img.size_cells(tsize.pixels_per_cell());
-            (s.height, s.width)
-        })
+    fn glyph_size(&mut self, _p: &Pools, g: u32, _f: u8) -> (usize, usize) {
+        let _ = self.ppc;
+        GLYPH_CELLS[g as usize % GLYPH_CELLS.len()]
     }
     /// rows x cols occupied by the multi-cell object owned by the cell, if it is one
     fn extent(&mut self, p: &Pools, c: C) -> Option<(usize, usize)> {
@@ -388,7 +394,7 @@ fn drive(p: &Pools, h: usize, w: usize, ops: &[Op]) -> Option<Vec<Vec<(String, V
     res.ok()
 }
 
-pub fn run(p: &Pools, input: &Value) -> Case {
+fn run(p: &Pools, input: &Value) -> Case {
     let h = input["h"].as_u64().unwrap_or(1) as usize;
     let w = input["w"].as_u64().unwrap_or(1) as usize;
     let ops = ops_parse(&input["ops"]);
